@@ -125,6 +125,9 @@ func genBatch(pc *propCfg, seed uint64, batchNo, n int, tier string) []*sdl.Prog
 			}
 		}
 		ps := mix(mix(seed, strHash(pc.ID)), uint64(batchNo)<<20|uint64(i))
+		if tier == "thorough" && fam == gen.FamWire && i%48 == 47 {
+			fam = gen.FamLarge // the large-graph slice of the thorough tier
+		}
 		if fam == gen.FamEmbed {
 			a, b := gen.GenerateTwins(ps, fmt.Sprintf("P%d", i), fmt.Sprintf("P%d", i+1))
 			progs = append(progs, a, b)
